@@ -373,6 +373,44 @@ func runC02(c *Ctx) {
 		}
 		parseCase("legacy-extreme", []byte(doc), "stream:legacy-extreme")
 	}
+	// 7b. record STRUCTURE of the legacy text formats: every sequence of up to three threadz blocks drawn from
+	// {own stack, "same as previous thread", empty stack} (a first block without a stack of its own has no
+	// previous sample to refer to), and degenerate records of the other formats (no addresses, zero counts,
+	// header only, a record before any header line, a memory map only)
+	blocks := []string{"  0x40b688 0x4d5f51 0x40be31\n", "  -- same as previous thread --\n", ""}
+	var seqs [][]int
+	for a := 0; a < 3; a++ {
+		seqs = append(seqs, []int{a})
+		for b := 0; b < 3; b++ {
+			seqs = append(seqs, []int{a, b})
+			for d := 0; d < 3; d++ {
+				seqs = append(seqs, []int{a, b, d})
+			}
+		}
+	}
+	for i, sq := range seqs {
+		doc := "--- threadz 1 ---\n\n"
+		for j, b := range sq {
+			doc += fmt.Sprintf("--- Thread 7f7a1c3f%x700 (name: t%d/%d) stack: ---\n", j, j, 14748+j) + blocks[b]
+		}
+		if i%2 == 0 {
+			doc += "--- Memory map: ---\n00400000-00fcb000: cppbench_server_main\n"
+		}
+		parseCase("legacy-structure", []byte(doc), "stream:legacy-structure")
+	}
+	for _, doc := range []string{
+		"--- threadz 1 ---\n", "--- threadz 1 ---\n\n--- Memory map: ---\n00400000-00fcb000: app\n",
+		"heap profile: 1: 2 [ 3: 4] @ heap_v2/524288\n", "heap profile: 1: 2 [ 3: 4] @ heap_v2/524288\n1: 2 [ 3: 4] @\n",
+		"heap profile: 0: 0 [ 0: 0] @ heap_v2/524288\n0: 0 [ 0: 0] @ 0x400100\n", "heap profile: 1: 2 [ 3: 4] @ heap_v2/0\n1: 2 [ 3: 4] @ 0x400100\n",
+		"heap profile: 1: 2 [ 3: 4] @ heapprofile\n 1: 2 [ 3: 4] @\n\nMAPPED_LIBRARIES:\n", "heap profile: 3: 100 [ 3: 100] @ heap_v2/524288\n3: 100 [ 3: 100] @ 0x400100 0x400200\n1: 0 [ 1: 0] @ 0x400100\n0: 7 [ 0: 7] @ 0x400200\n",
+		"goroutine profile: total 0\n", "goroutine profile: total 3\n3 @\n", "goroutine profile: total 1\n0 @ 0x400100\n", "threadcreate profile: total 2\n2 @\n\n1 @ 0x1\n",
+		"--- contentionz 1 ---\n", "--- contentionz 1 ---\ncycles/second = 0\n1 2 @ 0x400100\n", "--- contentionz 1 ---\nsampling period = 0\n0 0 @\n", "--- contentionz 1 ---\ncycles/second = 1000\n5 1 @\n5 1 @ 0x400100\n",
+		"--- heapz 1 ---\n", "--- heapz 1 ---\nformat = java\nresolution = bytes\n", "--- heapz 1 ---\nformat = java\nresolution = bytes\n 10 0 @ 0x2b\n\n 0x2b f (F.java:1)\n", "--- heapz 1 ---\nformat = java\nresolution = bytes\n 1000 7 @\n",
+		"--- contentionz 1 ---\nformat = java\nresolution = microseconds\nsampling period = 100\nms since reset = 6\n 1 0 @ 0x2b\n 0 1 @\n\n 0x2b f (F.java:1)\n",
+		"--- growthz 1 ---\n", "heap profile: 1: 2 [ 3: 4] @ growthz\n1: 2 [ 3: 4] @\n", "heap profile: 7: 7 [ 7: 7] @ fragmentationz\n7: 7 [ 7: 7] @ 0x1\n",
+	} {
+		parseCase("legacy-structure", []byte(doc), "stream:legacy-structure")
+	}
 	// 8. legacy binary CPU profiles (profilez: header 0,3,0|1,period,0; records count,depth,pcs...;
 	// trailer 0,1,0) in 32/64-bit words of either byte order, with extreme count / depth / period words
 	// (k*2^62, 2^63, 2^64-1, 2^32-1 ...) and truncated tails, optionally followed by a memory map
